@@ -212,8 +212,8 @@ void scen_c05(mt_case * c) {
   mt_hash(c->prog.p, c->prog.pos);
 
   mt_lib_start(c, &e, 0);
-  myth_mutex_init(&g_m, 0);
-  for (int i = 0; i < ncv; i++) myth_cond_init(&g_cv[i].cv, 0);
+  Z0(myth_mutex_init(&g_m, 0));
+  for (int i = 0; i < ncv; i++) Z0(myth_cond_init(&g_cv[i].cv, 0));
 
   /* signals with no waiter must have no effect */
   m_lock();
@@ -222,24 +222,24 @@ void scen_c05(mt_case * c) {
   m_unlock();
 
   if (pattern == 0) {
-    for (int j = 0; j < bb.C; j++) myth_create_ex(&th[nth++], 0, bb_consumer, (void *)(intptr_t)j);
-    for (int i = 0; i < bb.P; i++) myth_create_ex(&th[nth++], 0, bb_producer, (void *)(intptr_t)i);
+    for (int j = 0; j < bb.C; j++) Z0(myth_create_ex(&th[nth++], 0, bb_consumer, (void *)(intptr_t)j));
+    for (int i = 0; i < bb.P; i++) Z0(myth_create_ex(&th[nth++], 0, bb_producer, (void *)(intptr_t)i));
   } else if (pattern == 1 && token_gate) {
     for (int i = 0; i < gt.k; i++) {
-      if ((gt.opener_pos + i) & 1) { myth_create_ex(&th[nth++], 0, token_signaller, (void *)(intptr_t)i); myth_create_ex(&th[nth++], 0, token_waiter, (void *)(intptr_t)i); }
-      else { myth_create_ex(&th[nth++], 0, token_waiter, (void *)(intptr_t)i); myth_create_ex(&th[nth++], 0, token_signaller, (void *)(intptr_t)i); }
+      if ((gt.opener_pos + i) & 1) { Z0(myth_create_ex(&th[nth++], 0, token_signaller, (void *)(intptr_t)i)); myth_create_ex(&th[nth++], 0, token_waiter, (void *)(intptr_t)i); }
+      else { Z0(myth_create_ex(&th[nth++], 0, token_waiter, (void *)(intptr_t)i)); myth_create_ex(&th[nth++], 0, token_signaller, (void *)(intptr_t)i); }
     }
   } else if (pattern == 1) {
     int opener_pos = gt.opener_pos;
     for (int i = 0; i < gt.k; i++) {
-      if (i == opener_pos) myth_create_ex(&th[nth++], 0, gate_opener, 0);
+      if (i == opener_pos) Z0(myth_create_ex(&th[nth++], 0, gate_opener, 0));
       myth_create_ex(&th[nth++], 0, gate_waiter, (void *)(intptr_t)i);
     }
-    if (opener_pos == gt.k) myth_create_ex(&th[nth++], 0, gate_opener, 0);
+    if (opener_pos == gt.k) Z0(myth_create_ex(&th[nth++], 0, gate_opener, 0));
   } else {
-    for (int i = ts.n - 1; i >= 0; i--) myth_create_ex(&th[nth++], 0, ts_thread, (void *)(intptr_t)i);
+    for (int i = ts.n - 1; i >= 0; i--) Z0(myth_create_ex(&th[nth++], 0, ts_thread, (void *)(intptr_t)i));
   }
-  for (int i = 0; i < nth; i++) { myth_join(th[i], 0); mv_progress(); }
+  for (int i = 0; i < nth; i++) { Z0(myth_join(th[i], 0)); mv_progress(); }
   mt_lib_finish();
 
   /* final oracle */
